@@ -37,7 +37,7 @@ ASSUMPTIONS = [
     "results are compared as strings; the shape check parses 'http://' + result with the reference splitter",
 ]
 
-SUFFIXES = ["com", "fr", "co.uk", "org", "com.au", "gov.uk", "ac.jp", "x.kawasaki.jp", "k12.ak.us", "blogspot.com", "de", "io"]
+SUFFIXES = ["com", "fr", "co.uk", "org", "com.au", "gov.uk", "ac.jp", "x.kawasaki.jp", "k12.ak.us", "blogspot.com", "de", "io", "onion", "рф", "臺灣"]
 _P = {}
 
 
@@ -290,8 +290,34 @@ def _sweep(acc, shard, nshards, seed, tier):
             emit("http://facebook.com" + path, "FACEBOOK.CO.UK" + path.upper(), "readme-example", {"strip_suffix": True, "platform_aware": pa})
 
 
+def _all_suffixes(acc, shard, nshards, seed, tier):
+    """the claim ranges over every suffix of the bundled list: example.<suffix> against example.com"""
+    import ural.tld_data as D
+    rules = list(D.PUBLIC_SUFFIXES) + list(D.PRIVATE_SUFFIXES)
+    psl = PSL(rules)
+    for i, rule in enumerate(rules):
+        if i % nshards != shard or rule.startswith("!"):
+            continue
+        suf = rule.replace("*", "zz9")
+        labels = suf.split(".")
+        try:
+            if psl.suffix_length(["example"] + labels) != len(labels):
+                continue      # shadowed by an exception rule, or not a complete suffix once the wildcard is filled in
+        except Exception:
+            continue
+        shape = i % 3
+        pre, tail = (("example", "/p?x=1"), ("fr-FR.example", ":8080/P"), ("www.shop.example", "/"))[shape]
+        for pa in ((False, True) if i % 4 == 0 else (False,)):
+            case = {"kind": "fp", "base": "http://%s.com%s" % (pre, tail), "variant": "http://%s.%s%s" % (pre, suf, tail),
+                    "transforms": ["suffix-swap"], "options": {"strip_suffix": True, "platform_aware": pa}}
+            acc.check(case, suf != "com", _cl(case) if i % 50 == 0 else ())
+
+
 def campaigns(tier, seed):
     return [
+        Campaign("every-bundled-suffix", _all_suffixes, "enumeration", exhaustive=True,
+                 bounds="every non-exception rule of the bundled public and private suffix lists ('*' filled with a fresh label), kept when the "
+                        "reference PSL confirms it is a complete suffix: example.<suffix> vs example.com under strip_suffix=True, 3 host shapes"),
         Campaign("exhaustive-panels", _sweep, "enumeration", exhaustive=True,
                  bounds="4 bases x 4 option sets x (249 'xx.' + 50 upper + 256 'xx-yy.' labels, 7 ports, 2 case flips, gl/hl at every position, negative controls); "
                         "all ordered pairs of %d suffixes x 3 host shapes; README example" % len(SUFFIXES)),
